@@ -23,16 +23,19 @@ IS = 2.0 ** -12  # image / matrix scale (entries below any plausible sparsity th
 OFFV = 999999999  # "not on the lattice" marker understood by Trace_Convolution.tla
 
 INVARIANTS = ["FootprintInside", "EvenKernelRejected", "BlurringIsMasksBlurring", "OperatorTableIsDefinitionOnBasis",
-              "FramesImplementDefinition", "ScatterIsMaskedBlur", "MatrixIsColumnwise", "SimulateThenFitResidualZero",
-              "CentreAndHomogeneity", "FrameShape"]
+              "FramesImplementDefinition", "PaddingIsEntrywise", "ScatterIsMaskedBlur", "MatrixIsColumnwise",
+              "SimulateThenFitResidualZero", "SimulatedDataFitsGeneratingImage", "CentreAndHomogeneity", "FrameShape"]
 
-MC_CFG = ("CONSTANTS\n  Families <- MCFamilies\n  Variants <- MCVariants\n  EvenKernels <- MCEven\nSPECIFICATION Spec\n"
+MC_CFG = ("CONSTANTS\n  Families <- MCFamilies\n  Variants <- MCVariants\n  EvenKernels <- MCEven\n"
+          "  StructFamilies <- MCStruct\n  SimFamilies <- MCSim\nSPECIFICATION Spec\n"
           + "".join(f"INVARIANT {i}\n" for i in INVARIANTS))
 
 TRACE_CFG = """CONSTANTS
   Families = {}
   Variants = {}
   EvenKernels = {}
+  StructFamilies = {}
+  SimFamilies = {}
 SPECIFICATION TraceSpec
 POSTCONDITION TraceAccepted
 """
@@ -80,21 +83,56 @@ def families(quick):
     return fams
 
 
+def struct_families(quick):
+    """Structured-kernel families: every kernel of Convolution!StructKernels(kh, kw, level) on a 2x2 block of unmasked
+    pixels whose blurring region reaches every kernel offset (non-square frames)."""
+    out = []
+    for kh in (1, 3, 5):
+        for kw in (1, 3, 5):
+            H, W = 2 * (kh // 2) + 3, 2 * (kw // 2) + 4
+            level = "full" if (not quick or (kh, kw) == (3, 3)) else "light"
+            out.append(family(H, W, kh, kw, 2, 2) + (level, "full"))
+    if not quick:
+        out.append(family(6, 5, 3, 3, 2, 2, dy=1) + ("full", "all"))  # every mask of a 2x2 window x every structured 3x3 kernel
+    return out
+
+
+def sim_families(quick):
+    """Simulation families: every mask of a 1x2 window x every noise-free combination of simulator options."""
+    shapes = [(3, 3), (3, 5), (5, 3)] if quick else [(kh, kw) for kh in (1, 3, 5) for kw in (1, 3, 5)]
+    return [family(2 * (kh // 2) + 3, 2 * (kw // 2) + 4, kh, kw, 1, 2) for kh, kw in shapes]
+
+
+# Convolution!SimOptionSet: every combination of the simulator options that keep the simulated data noise-free
+SIM_OPTIONS = [{"sky": sky, "subtract": sub, "norm": norm, "noise": noise}
+               for sky in (0, 3, 64, -1) for sub in (True, False) for norm in ("raw", "unit_norm", "unit_asis")
+               for noise in ("const1", "const8th", "poisson")]
+N_SIM_OPTIONS = len(SIM_OPTIONS)
+
+
 def expected_instances(fams, n_variants, n_even):
     return sum(2 ** (f[6] * f[7]) - 1 for f in fams) * n_variants + n_even * n_variants
 
 
-def enumerate_instances(ctx, fams, variants=("pos", "signed"), even=EVEN_KERNELS, tag="MC_Convolution", timeout=3000):
-    tup = lambda t: "<<" + ",".join(str(x) for x in t) + ">>"
+def enumerate_instances(ctx, fams, sfams=(), mfams=(), variants=("pos", "signed"), even=EVEN_KERNELS, tag="MC_Convolution",
+                        timeout=3000):
+    tup = lambda t: "<<" + ",".join(f'"{x}"' if isinstance(x, str) else str(x) for x in t) + ">>"
     defs = ("MCFamilies == {" + ", ".join(tup(f) for f in fams) + "}\n"
             "MCVariants == {" + ", ".join(f'"{v}"' for v in variants) + "}\n"
-            "MCEven == {" + ", ".join(tup(e) for e in even) + "}")
+            "MCEven == {" + ", ".join(tup(e) for e in even) + "}\n"
+            "MCStruct == {" + ", ".join(tup(f) for f in sfams) + "}\n"
+            "MCSim == {" + ", ".join(tup(f) for f in mfams) + "}")
     res = ctx.tlc("Convolution", MC_CFG, defs=defs, tag=tag, timeout=timeout, env=JVM_MC)
     insts = res.by_kind("inst")
+    n = {v: sum(1 for i in insts if i["variant"] == v and not i["even"]) for v in ("pos", "signed", "struct", "sim")}
+    n_even = sum(1 for i in insts if i["even"])
     odd = expected_instances(fams, len(variants), 0)
-    want = odd + len(even) * len(variants)
-    if len(insts) != want or res.distinct != 3 * odd + 2 * len(even) * len(variants):
-        raise core.MachineryError(f"Convolution.tla enumerated {len(insts)} instances / {res.distinct} states, expected {want}")
+    want_sim = sum(2 ** (f[6] * f[7]) - 1 for f in mfams) * N_SIM_OPTIONS
+    if (n["pos"] + n["signed"] != odd or n_even != len(even) * len(variants) or n["sim"] != want_sim
+            or (sfams and n["struct"] < 20 * len(sfams))
+            or res.distinct != 3 * (odd + n["struct"]) + 4 * n["sim"] + 2 * n_even):
+        raise core.MachineryError(f"Convolution.tla enumerated {n} (+{n_even} even) instances / {res.distinct} states, expected "
+                                  f"{odd} identifiable, {want_sim} simulation, {len(even) * len(variants)} even")
     return insts
 
 
@@ -148,7 +186,11 @@ def records_for(inst, seed=0):
 
     h, w, kh, kw = inst["h"], inst["w"], inst["kh"], inst["kw"]
     u = list(inst["u"])
-    rng = np.random.default_rng([seed, h, w, kh, kw, len(u), sum(u) % 65521, 1 if inst.get("variant") == "signed" else 0])
+    variant = inst.get("variant", "random")
+    salt = sum((n + 1) * (v % 251) for n, v in enumerate(inst.get("kern") or [])) % 65521
+    so = inst.get("simopt") or {}
+    salt2 = (so.get("sky", 0) % 97) + 101 * bool(so.get("subtract")) + 211 * len(str(so.get("norm"))) + 307 * len(str(so.get("noise")))
+    rng = np.random.default_rng([seed, h, w, kh, kw, len(u), sum(u) % 65521, 1 if variant == "signed" else 0, salt, salt2])
     ps = [(1.0, 1.0), (0.1, 0.1), (0.5, 2.0)][int(rng.integers(0, 3))]
     m = _mask_of(h, w, u)
     mask = aa.Mask2D(mask=m, pixel_scales=ps)
@@ -244,7 +286,9 @@ def records_for(inst, seed=0):
                 real_ok = False
         return {"bl": bl, "opi": opi, "opn": opn, "opb": opb, "real_ok": bool(real_ok)}
 
-    guarded("operator", operator, bl=[], opi=[], opn=[], opb=[], real_ok=False)
+    full_set = variant not in ("struct", "sim")
+    if variant != "sim":
+        guarded("operator", operator, bl=[], opi=[], opn=[], opb=[], real_ok=False)
 
     # ---------------- one dense signed image with junk outside mask + blurring region -------------
     def image():
@@ -259,7 +303,8 @@ def records_for(inst, seed=0):
         return {"img": nat.ravel().astype(int).tolist(), "out": alpha(out, KS * IS), "outn": alpha(outn, KS * IS),
                 "junk_ok": bool(out.shape == out2.shape and np.array_equal(out, out2))}
 
-    guarded("image", image, img=[], out=[], outn=[], junk_ok=False)
+    if variant != "sim":
+        guarded("image", image, img=[], out=[], outn=[], junk_ok=False)
 
     # ---------------- mapping matrices ------------------------------------------------------------
     def matrix(kind):
@@ -284,7 +329,7 @@ def records_for(inst, seed=0):
 
         return run
 
-    for kind in ("basis", "fraction", "dense", "signed"):
+    for kind in (("basis", "fraction", "dense", "signed") if full_set else ("basis",) if variant == "struct" else ()):
         guarded("matrix", matrix(kind), kind=kind, m=[], out=[])
 
     # ---------------- kernels with a history ---------------------------------------------------------
@@ -347,41 +392,64 @@ def records_for(inst, seed=0):
                     "outm": alpha(np.array(outm.slim), KS * IS), "outc": alpha(np.array(outc.slim), KS * IS)})
         return rec
 
-    guarded("whole_frame", whole_frame, history="", img=[], out=[], outm=[], outc=[])
+    if variant != "sim":
+        guarded("whole_frame", whole_frame, history="", img=[], out=[], outm=[], outc=[])
 
     # ---------------- simulate (noise off) -> apply mask -> fit with the generating image ----------
-    def simfit():
-        kraw, q = pow2_kernel(kh, kw, rng if inst.get("random") else None)
-        mode = HISTORIES[int(rng.integers(0, len(HISTORIES)))]
-        rec = {"k": kraw, "history": mode}
-        if mode == "fresh":
-            # unnormalised kernel from the constructor; simulator and dataset normalise it (exact: the sum is 2^p)
-            psf = aa.Kernel2D.no_mask(values=np.array(kraw, dtype=float).reshape(kh, kw), pixel_scales=ps)
-            normalize = True
-        else:
-            # unit-sum kernel derived from a used base kernel; the simulator takes it as it is
-            psf = kernel_with_history(np.array(kraw, dtype=float).reshape(kh, kw) / q, 1.0 / q, mode)
-            normalize = False
-        nat = rng.integers(0, 9, size=(h, w))
-        image = aa.Array2D.no_mask(values=nat.astype(float), pixel_scales=ps)
-        sim = aa.SimulatorImaging(exposure_time=1.0, psf=psf, normalize_psf=normalize, add_poisson_noise_to_data=False,
-                                  include_poisson_noise_in_noise_map=False, noise_if_add_noise_false=1.0, noise_seed=1)
-        dataset = sim.via_image_from(image=image)
-        masked = dataset.apply_mask(mask=mask)
-        conv = masked.convolver
-        bmask = masked.mask.derive_mask.blurring_from(kernel_shape_native=masked.psf.shape_native)
-        model = conv.convolve_image(image=aa.Array2D(values=nat.astype(float), mask=masked.mask),
-                                    blurring_image=aa.Array2D(values=nat.astype(float), mask=bmask))
-        data = np.array(masked.data.slim)
-        model = np.array(model.slim)
-        rz = bool(data.shape == model.shape and np.all(data - model == 0.0))
-        rec.update({"img": nat.ravel().astype(int).tolist(), "data": alpha(data, 1.0 / q), "model": alpha(model, 1.0 / q),
-                    "resid_zero": rz})
-        return rec
+    def simfit(opt):
+        def run():
+            if variant == "sim":  # the kernel of the bounded machine (entries sum to a power of two)
+                kraw, q = k, int(sum(k))
+            else:
+                kraw, q = pow2_kernel(kh, kw, rng if inst.get("random") else None)
+            if q & (q - 1) or min(kraw) < 0:
+                raise core.MachineryError(f"gamma: simulation kernel {kraw} is not non-negative with a power-of-two sum")
+            rec = {"k": kraw, "sky": int(opt["sky"]), "subtract": bool(opt["subtract"]), "norm": opt["norm"], "noise": opt["noise"]}
+            raw = np.array(kraw, dtype=float).reshape(kh, kw)
+            if opt["norm"] == "raw":
+                # unnormalised kernel from the constructor; simulator and dataset normalise it (exact: the sum is 2^p)
+                mode, psf, normalize = "fresh", aa.Kernel2D.no_mask(values=raw, pixel_scales=ps), True
+            elif opt["norm"] == "unit_norm":
+                mode, psf, normalize = "fresh", aa.Kernel2D.no_mask(values=raw / q, pixel_scales=ps), True
+            else:
+                # unit-sum kernel taken as it is; 4 times of 5 an object derived from a used base kernel
+                mode = HISTORIES[int(rng.integers(0, len(HISTORIES)))]
+                psf, normalize = kernel_with_history(raw / q, 1.0 / q, mode), False
+            rec["history"] = mode
+            include, noise_value, exposure = {"const1": (False, 1.0, 1.0), "const8th": (False, 0.125, 1.0),
+                                              "poisson": (True, 0.1, 64.0)}[opt["noise"]]
+            sky = opt["sky"] / q  # data units are 1/q
+            nat = rng.integers(2, 10, size=(h, w))  # >= 2: convolved image + sky stays positive (Poisson deviates are drawn)
+            image = aa.Array2D.no_mask(values=nat.astype(float), pixel_scales=ps)
+            sim = aa.SimulatorImaging(exposure_time=exposure, background_sky_level=sky, subtract_background_sky=bool(opt["subtract"]),
+                                      psf=psf, normalize_psf=normalize, add_poisson_noise_to_data=False,
+                                      include_poisson_noise_in_noise_map=include, noise_if_add_noise_false=noise_value, noise_seed=1)
+            dataset = sim.via_image_from(image=image)
+            masked = dataset.apply_mask(mask=mask)
+            conv = masked.convolver
+            bmask = masked.mask.derive_mask.blurring_from(kernel_shape_native=masked.psf.shape_native)
+            model = conv.convolve_image(image=aa.Array2D(values=nat.astype(float), mask=masked.mask),
+                                        blurring_image=aa.Array2D(values=nat.astype(float), mask=bmask))
+            data = np.array(masked.data.slim)
+            model = np.array(model.slim)
+            left = 0.0 if opt["subtract"] else sky  # the sky declared to be left in the data
+            rz = bool(data.shape == model.shape and np.all((data - left) - model == 0.0))
+            rec.update({"img": nat.ravel().astype(int).tolist(), "data": alpha(data, 1.0 / q), "model": alpha(model, 1.0 / q),
+                        "resid_zero": rz})
+            return rec
 
-    guarded("simfit", simfit, history="", img=[], data=[], model=[], resid_zero=False)
+        return run
+
+    if variant == "sim":
+        opts = [inst["simopt"]]
+    elif variant == "struct":
+        opts = []
+    else:
+        opts = [SIM_OPTIONS[int(rng.integers(0, len(SIM_OPTIONS)))]]
+    for opt in opts:
+        guarded("simfit", simfit(opt), history="", sky=0, subtract=True, norm="", noise="", img=[], data=[], model=[], resid_zero=False)
     for r in recs:
-        r["variant"] = inst.get("variant", "random")
+        r["variant"] = variant
     return recs
 
 
@@ -398,6 +466,42 @@ def _many(args):
 # ------------------------------------------------------------------------------------------------
 # random larger instances (beyond the exhaustive bound)
 # ------------------------------------------------------------------------------------------------
+def random_kernel(rng, kh, kw, t):
+    """signed integer kernels, sides 1..7: identifiable (distinct magnitudes) or with structured zeros / cancellations."""
+    style = t % 6
+    if style in (0, 1):  # signed, distinct magnitudes: the couplings are identifiable
+        return (rng.permutation(kh * kw) + 1) * rng.choice([-1, 1], size=kh * kw)
+    k = rng.integers(-4, 5, size=(kh, kw))
+    if style == 2:  # some rows and columns zero, others summing to zero with non-zero entries (borders included)
+        for axis, n in ((0, kh), (1, kw)):
+            for a in range(n):
+                line = k[a, :] if axis == 0 else k[:, a]
+                kind = int(rng.integers(0, 4)) if a in (0, n - 1) else int(rng.integers(0, 8))
+                if kind == 0:
+                    line[:] = 0
+                elif kind == 1 and line.size > 1:
+                    line[-1] = -int(line[:-1].sum())
+    elif style == 3:  # antisymmetric (derivative-like): k = -flip(k)
+        k = k - k[::-1, ::-1]
+    elif style == 4:  # zero-padded: a smaller odd kernel in the centre
+        ih, iw = int(rng.choice(range(1, kh + 1, 2))), int(rng.choice(range(1, kw + 1, 2)))
+        core = k[(kh - ih) // 2: (kh + ih) // 2, (kw - iw) // 2: (kw + iw) // 2].copy()
+        k[:, :] = 0
+        k[(kh - ih) // 2: (kh + ih) // 2, (kw - iw) // 2: (kw + iw) // 2] = core
+    else:  # a single non-zero entry anywhere, or first/last rows and columns cancelling exactly
+        if t % 2:
+            k[:, :] = 0
+            k[int(rng.integers(0, kh)), int(rng.integers(0, kw))] = int(rng.choice([-5, 3]))
+        else:
+            if kw > 1:
+                k[0, -1] = -int(k[0, :-1].sum())
+                k[-1, -1] = -int(k[-1, :-1].sum())
+            if kh > 1:
+                k[-1, 0] = -int(k[:-1, 0].sum())
+                k[-1, -1] = -int(k[:-1, -1].sum())
+    return k.ravel()
+
+
 def random_instances(rng, n, max_side=9):
     out = []
     for t in range(n):
@@ -424,7 +528,7 @@ def random_instances(rng, n, max_side=9):
             inner[rng.integers(0, ih), rng.integers(0, iw)] = True
         m = np.ones((h, w), dtype=bool)
         m[kh // 2: h - kh // 2, kw // 2: w - kw // 2] = ~inner
-        kern = (rng.permutation(kh * kw) + 1) * rng.choice([-1, 1], size=kh * kw)  # signed, distinct magnitudes
+        kern = random_kernel(rng, kh, kw, t)
         out.append({"h": h, "w": w, "kh": kh, "kw": kw, "variant": "random", "random": True, "even": False,
                     "u": [int(x) for x in np.flatnonzero(~m.ravel())], "kern": [int(v) for v in kern]})
     return out
@@ -471,7 +575,7 @@ def validate(ctx, records, insts, tag, chunk=2000):
 
 
 def _slim_inst(inst):
-    return {k: inst[k] for k in ("h", "w", "kh", "kw", "variant", "u", "even", "kern", "random") if k in inst}
+    return {k: inst[k] for k in ("h", "w", "kh", "kw", "variant", "u", "even", "kern", "random", "simopt") if k in inst}
 
 
 def cross_check(records, insts, rejects):
@@ -492,11 +596,16 @@ def cross_check(records, insts, rejects):
 def run(ctx):
     quick = ctx.quick
     fams = families(quick)
-    n_random = 60 if quick else 500
+    sfams, mfams = struct_families(quick), sim_families(quick)
+    n_random = 72 if quick else 600
     ctx.bounds = {"families(H,W,kh,kw,top,left,win_h,win_w)": fams, "kernel_variants": ["pos", "signed"],
+                  "structured_kernel_families(...,level,masks)": sfams, "simulation_families": mfams,
+                  "simulator_option_combinations": N_SIM_OPTIONS,
                   "even_kernels": EVEN_KERNELS, "random_instances": n_random, "random_max_side": 9,
-                  "random_kernel_sides": [1, 3, 5, 7], "kernel_scale": "2^-12", "image_and_matrix_scale": "2^-12"}
-    tl = enumerate_instances(ctx, fams)
+                  "random_kernel_sides": [1, 3, 5, 7], "random_kernel_styles": ["identifiable", "zero/cancelling rows+columns",
+                                                                               "antisymmetric", "zero-padded", "single entry",
+                                                                               "cancelling borders"], "kernel_scale": "2^-12", "image_and_matrix_scale": "2^-12"}
+    tl = enumerate_instances(ctx, fams, sfams, mfams)
     ctx.exhaustive = True
     rng = np.random.default_rng(ctx.seed)
     rnd = random_instances(rng, n_random)
